@@ -59,6 +59,9 @@ type DeviceMfgInfo struct {
 // support a possibly constrained device needs.
 func SignDeviceCertificate(deviceCAKey crypto.Signer, deviceCAChain []*x509.Certificate) func(*DeviceMfgInfo) ([]*x509.Certificate, error) {
 	return func(info *DeviceMfgInfo) ([]*x509.Certificate, error) {
+		if info == nil {
+			return nil, fmt.Errorf("device manufacturing info is required to sign a device certificate")
+		}
 		// Validate device info
 		csr := x509.CertificateRequest(info.CertInfo)
 		if err := csr.CheckSignature(); err != nil {
